@@ -200,7 +200,7 @@ func TestCampaign(t *testing.T) {
 func MassSizes() []int {
 	s := []int{5, 12, 33, 63, 64, 65, 66, 100, 127, 128, 129, 255, 256, 257}
 	if ev.Thorough() {
-		s = append(s, 511, 512, 513, 1000, 1023, 1024, 1025, 2049)
+		s = append(s, 511, 512, 513, 1024, 1025)
 	}
 	return s
 }
